@@ -644,8 +644,9 @@ def gen_values(rng, sol, precs=('d', 'ld'), nassign=2, npts=3, evaluators=None, 
                 rad[rng.choice(sorted(rad))].append(exact_double(rng, 0.2, 0.4))
         cbk = [rng.choice(['const', 'arr', 'poly']), hexf(exact_double(rng, 0.5, 2.0)), hexf(exact_double(rng, 0.1, 0.9)), hexf(exact_double(rng, 0.1, 2.0))]
         cbk2 = [rng.choice(['const', 'arr', 'poly']), hexf(exact_double(rng, 2.5, 4.0)), hexf(exact_double(rng, 0.1, 0.9)), hexf(exact_double(rng, 0.1, 2.0))]
-        if rng.random() < 0.35:      # a positive callback far below one unit roundoff, or large: the caller's function is used as it is
-            cbk2 = ['const', hexf(rng.choice([1e-18, 1e-24, 1e-30, 1e6])), hexf(0.0), hexf(0.0)]
+        if ai % 3 != 2:      # a positive callback far below one unit roundoff, or very large (its term then dominates): the caller's
+            # function is used as it is
+            cbk2 = ['const', hexf(rng.choice([1e-18, 1e-24, 1e-30]) if ai % 3 == 1 else rng.choice([1e4, 1e6, 1e9])), hexf(0.0), hexf(0.0)]
         pts = []
         # first, the evaluations of the previous assignment once more at the SAME points (new parameters): a
         # cache keyed on the point, or a value computed once and kept, shows up against the oracle
